@@ -51,6 +51,31 @@ def programs(tick, unit, tf, kind):
     return out
 
 
+def react_programs(tick, unit, tf, kind):
+    """multi-step histories inside one trade: a partial take-profit two ticks away fills as a resting order somewhere inside a
+    trading candle and its handler submits a MARKET order (get out / scale back in, then re-bracket far away)"""
+    w = T[tf] + 3
+    out = []
+    for side in (('long', 'short') if kind == 'futures' else ('long',)):
+        b = {'tick': tick, 'unit': unit, 'side': side, 'enter': {'when': 'flat', 'legs': [[2, 0]]}, 'cancel_entry': True}
+        oo = {'tp': [[1, 2], [1, w]]}
+        if kind == 'futures':
+            oo['sl'] = [[2, w]]
+            out.append(('%s-tp1-liquidate-w%d' % (side, w), dict(b, on_open=oo, on_reduced={'liquidate': True})))
+        oi = {'tp': 'all', 'tp_d': w}
+        if kind == 'futures':
+            oi.update({'sl': 'all', 'sl_d': w})
+        out.append(('%s-tp1-reenter-w%d' % (side, w), dict(b, on_open=oo, on_reduced={'reenter': [[1, 0]]}, on_increased=oi)))
+    return out
+
+
+def all_programs(tick, unit, tf, kind, npr):
+    P = programs(tick, unit, tf, kind)[:npr]
+    if tf != '1m':
+        P = P + react_programs(tick, unit, tf, kind)
+    return P
+
+
 def configs(quick):
     """(trading tf, data routes, kind, word generator, number of programs used)"""
     out = []
@@ -168,7 +193,7 @@ def run(ctx):
     emb = ctx.embedding
     jobs = []
     for tf, droutes, kind, gen, npr in configs(ctx.quick):
-        P = programs(emb[1], emb[2], tf, kind)[:npr]
+        P = all_programs(emb[1], emb[2], tf, kind, npr)
         for minutes, wname in words(gen):
             for pname, spec in P:
                 jobs.append((minutes, wname, tf, droutes, kind, pname, spec, emb))
@@ -210,7 +235,7 @@ def replay(case, ctx):
         if tf == case['tf'] and droutes == case['data_routes'] and kind == case['kind']:
             for minutes, wname in words(gen):
                 if wname == case['word']:
-                    P = dict(programs(emb[1], emb[2], tf, kind))
+                    P = dict(all_programs(emb[1], emb[2], tf, kind, 99))
                     r = _diff((minutes, wname, tf, droutes, kind, case['program'], P[case['program']], emb))
                     return [Violation.from_json(v) for v in r['viols']]
     return []
